@@ -39,7 +39,7 @@ def code_objects_of(obj) -> list[types.CodeType]:
                 add_code(k)
 
     def visit(o, depth=0):
-        if isinstance(o, (staticmethod, classmethod)):
+        if isinstance(o, (staticmethod, classmethod, types.MethodType)):
             o = o.__func__
         if isinstance(o, property):
             for f in (o.fget, o.fset, o.fdel):
